@@ -104,7 +104,7 @@ func (rl *Shell) upHistory() {
 
 // Move to the first event in the history list.
 func (rl *Shell) beginningOfHistory() {
-	rl.History.SkipSave()
+	rl.History.Save()
 
 	history := rl.History.Current()
 	if history == nil {
